@@ -34,6 +34,30 @@ func c10(c *an.Ctx) {
 			if r.Failed() {
 				continue
 			}
+			if look.Len() == 0 && create.Len() == 0 {
+				// lookup and create may have moved, together, into a helper this function calls
+				lookM, createM := call(r, T+":MergeSetIndex.getSeriesIdBySeriesKey"), call(r, T+":MergeSetIndex.createIndexes")
+				ast.Inspect(f.Body, func(m ast.Node) bool {
+					ce, ok := m.(*ast.CallExpr)
+					if !ok || look.Len() > 0 {
+						return true
+					}
+					cal := an.Callee(f.Info, ce)
+					if cal == nil || cal.Pkg() != f.Pkg.Types {
+						return true
+					}
+					if src := c.P.Src(cal); src != nil && src.Decl.Body != nil {
+						if h := c.P.Fn(src); h != nil && h.Find(lookM).Len() > 0 && h.Find(createM).Len() > 0 {
+							f, look, create = h, h.Find(lookM), h.Find(createM)
+						}
+					}
+					return true
+				})
+			}
+			if look.Len() == 0 || create.Len() == 0 {
+				r.Fail(f.Name+": sites", c.P.Pos(f.Body.Pos()), "expected exactly one lookup and one create (found %d/%d)", look.Len(), create.Len())
+				continue
+			}
 			f.Precedes(r, look, create, an.OrderOpt{Success: true, Label: "getSeriesIdBySeriesKey(success) ≺ createIndexes"})
 			// the id variable the lookup result is stored in
 			if as, ok := f.G.Vs[look.List[0].V].Node.(*ast.AssignStmt); ok && len(as.Lhs) == 2 {
